@@ -162,6 +162,8 @@ fn item_texts(it: &Value) -> Vec<String> {
                 // also a long value whose 64th byte falls inside a multi-byte character (an error that echoes the value must not cut it there)
                 ("str", "multi") => vec!["\"xy\"", "\"hello world\"", "r#\"a \"q\" b\"#", "\"xxxxxxxxxxxxxxxxxxxxxxxxxxxxxxxxxxxxxxxxxxxxxxxxxxxxxxxxxxxxxxx\u{e9}\u{e9}\u{e9} tail\""],
                 ("str", "empty") => vec!["\"\""],
+                // the string as it stands: blanks or a comment around an acceptable text are part of it
+                ("str", "padded") => vec!["\" true\"", "\"false \"", "\"\\ttrue\"", "\"/**/true\"", "\" 17\"", "\"42 \"", "\"1.5 \"", "\" 2e3\"", "\"17 // n\""],
                 x => panic!("{:?}", x),
             };
             vals.into_iter().map(|v| format!("name = {}", v)).collect()
@@ -214,6 +216,20 @@ fn float_text(m: &syn::Meta) -> Option<String> {
 
 const INTS: [&str; 12] = ["i8", "u8", "i16", "u16", "i32", "u32", "i64", "u64", "i128", "u128", "isize", "usize"];
 
+/// `T::from_value(lit)` for a concrete scalar target (only the verdict matters)
+fn value_target(target: &str, lit: &syn::Lit) -> darling::Result<()> {
+    use std::num::*;
+    macro_rules! v { ($t:ty) => { <$t as FromMeta>::from_value(lit).map(|_| ()) } }
+    match target {
+        "bool" => v!(bool), "char" => v!(char), "String" => v!(String), "PathBuf" => v!(std::path::PathBuf), "f32" => v!(f32), "f64" => v!(f64),
+        "i8" => v!(i8), "u8" => v!(u8), "i16" => v!(i16), "u16" => v!(u16), "i32" => v!(i32), "u32" => v!(u32), "i64" => v!(i64), "u64" => v!(u64),
+        "i128" => v!(i128), "u128" => v!(u128), "isize" => v!(isize), "usize" => v!(usize),
+        "nz_i8" => v!(NonZeroI8), "nz_u8" => v!(NonZeroU8), "nz_i16" => v!(NonZeroI16), "nz_u16" => v!(NonZeroU16), "nz_i32" => v!(NonZeroI32), "nz_u32" => v!(NonZeroU32),
+        "nz_i64" => v!(NonZeroI64), "nz_u64" => v!(NonZeroU64), "nz_i128" => v!(NonZeroI128), "nz_u128" => v!(NonZeroU128), "nz_isize" => v!(NonZeroIsize), "nz_usize" => v!(NonZeroUsize),
+        _ => Ok(()),
+    }
+}
+
 pub fn replay_form(case: &Value) -> (crate::erralg::Outcome, u64) {
     let mut prop = vec![];
     let mut runs = 0;
@@ -236,6 +252,12 @@ pub fn replay_form(case: &Value) -> (crate::erralg::Outcome, u64) {
                 }
                 Err(e) => {
                     if exp == "yes" { prop.push(format!("{} <- {}: rejected ({})", t, text, e)); }
+                    // the literal-level entry point is public too: its own error has to carry the literal's span
+                    if let syn::Meta::NameValue(nv) = &meta { if let syn::Expr::Lit(l) = &nv.value {
+                        if let Ok(Err(e2)) = catch(std::panic::AssertUnwindSafe(|| value_target(t, &l.lit))) {
+                            if !e2.has_span() { prop.push(format!("{} <- {}: from_value's error `{}` carries no span", t, text, e2)); }
+                        }
+                    } }
                     match e.explicit_span() {
                         None => prop.push(format!("{} <- {}: error `{}` carries no span", t, text, e)),
                         Some(s) => if !item.contains(&Range::of(s)) { prop.push(format!("{} <- {}: error span outside the item", t, text)); },
